@@ -15,6 +15,14 @@ if os.path.exists(os.path.join(L, "OxiddModel", "Reorder", "DriverStoreC.lean"))
     EXTRA_PROTOS.append(("reorder-store-bcdd", "OxiddModel.Reorder.SwapStoreC.proto"))
     EXTRA_IMPORTS.append("OxiddModel.Reorder.DriverStoreC")
 PROTO_NAME = {"Num": "OxiddModel.Num.Driver.proto"}
+# protocols delivered by extension builders (tools/integrate.py): name -> {const, import}
+import json
+_pe = os.path.join(ROOT, "tools", "protos_extra.json")
+if os.path.exists(_pe):
+    for _k, _v in json.load(open(_pe)).items():
+        EXTRA_PROTOS.append((_k, _v["const"]))
+        if _v["import"] not in EXTRA_IMPORTS:
+            EXTRA_IMPORTS.append(_v["import"])
 src = "import OxiddModel.Util.Proto\n" + "".join(f"import OxiddModel.{a}.Driver\n" for a, _ in have) + "".join(f"import {m}\n" for m in EXTRA_IMPORTS) + '''
 open OxiddModel
 
